@@ -50,6 +50,8 @@ type Step struct {
 	Op       string   `json:"op"` // Reset | Route | Place | Churn
 	Nodes    []string `json:"nodes"`
 	Has      []string `json:"has"`
+	Gone     []string `json:"gone"`  // nodes whose only upstream had sent go-away before the request
+	Dereg    []string `json:"dereg"` // those of them whose registry does not list the endpoint afterwards
 	Bel      []Belief `json:"bel"`
 	Entry    string   `json:"entry"`
 	Ext      string   `json:"ext"` // what the client says about the forward marker: none | forged | false | hide
@@ -316,6 +318,7 @@ type emitter func(*Step)
 
 type c06case struct {
 	has   []string
+	gone  []string
 	bel   map[string][]string
 	entry string
 	ext   string
@@ -325,18 +328,73 @@ type c06case struct {
 func runC06(c *cluster, cases []c06case, emit emitter) error {
 	ids := c.ids()
 	// group by placement so listeners are only re-created when it changes
-	sort.SliceStable(cases, func(i, j int) bool { return strings.Join(cases[i].has, ",") < strings.Join(cases[j].has, ",") })
+	keyOf := func(cs c06case) string { return strings.Join(cs.has, ",") + "|" + strings.Join(cs.gone, ",") }
+	sort.SliceStable(cases, func(i, j int) bool { return keyOf(cases[i]) < keyOf(cases[j]) })
 	var cur string
 	var ups []*psim.Upstream
+	goneUps := map[string]*psim.Upstream{}
+	registers := func(id string) bool {
+		m, err := c.byID[id].UpstreamEndpoints("")
+		return err == nil && m["e"] > 0
+	}
+	// an upstream that registers and then tells the server it accepts no more connections (go-away); it stays
+	// registered until a request is routed to it
+	// whether the other nodes' gossip state lists a live endpoint:e entry of id (what the node itself
+	// published, whatever beliefs were injected into the routing tables since)
+	othersKnow := func(id string, want bool) bool {
+		for _, n := range ids {
+			if n == id {
+				continue
+			}
+			st, ok := c.byID[n].Server.VerifGossip().NodeState(id)
+			if !ok {
+				return false
+			}
+			live := false
+			for _, e := range st.Entries {
+				if e.Key == "endpoint:e" && !e.Deleted {
+					live = true
+				}
+			}
+			if live != want {
+				return false
+			}
+		}
+		return true
+	}
+	placeGone := func(id string) error {
+		if u := goneUps[id]; u != nil {
+			u.Shutdown()
+			delete(goneUps, id)
+			if !psim.WaitFor(10*time.Second, func() bool { return !registers(id) }) {
+				return fmt.Errorf("the go-away upstream of %s was not removed after its client closed", id)
+			}
+		}
+		u, err := psim.Listen(context.Background(), c.byID[id].UpstreamAddr(), "e", "g-"+id, "", "")
+		if err != nil {
+			return err
+		}
+		goneUps[id] = u
+		if !psim.WaitFor(30*time.Second, func() bool { return othersKnow(id, true) }) {
+			return fmt.Errorf("the registration of the go-away upstream of %s did not reach the other nodes", id)
+		}
+		_ = u.Ln.Close()
+		time.Sleep(30 * time.Millisecond) // the go-away frame is on its way; nothing observable tells when it arrived
+		return nil
+	}
 	first := true
 	for _, cs := range cases {
-		key := strings.Join(cs.has, ",")
+		key := keyOf(cs)
 		if first || key != cur {
 			first = false
 			for _, u := range ups {
 				u.Shutdown()
 			}
 			ups = nil
+			for id, u := range goneUps {
+				u.Shutdown()
+				delete(goneUps, id)
+			}
 			// forget every injected belief and wait until nobody advertises or
 			// believes anything; the new placement is then learned through gossip
 			psim.WaitFor(5*time.Second, func() bool {
@@ -370,6 +428,22 @@ func runC06(c *cluster, cases []c06case, emit emitter) error {
 			if !psim.WaitFor(30*time.Second, func() bool { return psim.Settled(c.nodes, "") }) {
 				return fmt.Errorf("did not settle for placement %v", cs.has)
 			}
+			for _, id := range cs.gone {
+				if err := placeGone(id); err != nil {
+					return err
+				}
+			}
+		}
+		// a go-away upstream that an earlier request used up is replaced
+		for _, id := range cs.gone {
+			if !registers(id) {
+				if !psim.WaitFor(30*time.Second, func() bool { return othersKnow(id, false) }) {
+					return fmt.Errorf("the removal of the go-away upstream of %s did not reach the other nodes", id)
+				}
+				if err := placeGone(id); err != nil {
+					return err
+				}
+			}
 		}
 		// inject the beliefs (right or wrong) through the public cluster state API
 		for _, n := range ids {
@@ -402,7 +476,14 @@ func runC06(c *cluster, cases []c06case, emit emitter) error {
 			rep = tcpRequest(c.byID[cs.entry].ProxyAddr(), "e", cs.ext)
 		}
 		after := c.quiesce()
-		s := &Step{Op: "Route", Nodes: ids, Has: cs.has, Entry: cs.entry, Ext: cs.ext, Route: cs.route, Status: rep.Status}
+		s := &Step{Op: "Route", Nodes: ids, Has: cs.has, Gone: []string{}, Dereg: []string{}, Entry: cs.entry, Ext: cs.ext,
+			Route: cs.route, Status: rep.Status}
+		for _, id := range cs.gone {
+			s.Gone = append(s.Gone, id)
+			if !registers(id) {
+				s.Dereg = append(s.Dereg, id)
+			}
+		}
 		for _, n := range ids {
 			b := cs.bel[n]
 			if b == nil {
@@ -421,6 +502,9 @@ func runC06(c *cluster, cases []c06case, emit emitter) error {
 		emit(s)
 	}
 	for _, u := range ups {
+		u.Shutdown()
+	}
+	for _, u := range goneUps {
 		u.Shutdown()
 	}
 	return nil
@@ -452,11 +536,20 @@ func allC06(ids []string) []c06case {
 	}
 	rec(0, map[string][]string{})
 	for _, has := range subsets(ids) {
-		for _, bel := range belChoices {
-			for _, entry := range ids {
-				for _, ext := range []string{"none", "forged", "false", "hide"} {
-					for _, route := range []string{"http", "tcp"} {
-						out = append(out, c06case{has: has, bel: bel, entry: entry, ext: ext, route: route})
+		// no go-away upstream, or exactly one node whose only upstream has gone away
+		gones := [][]string{{}}
+		for _, g := range ids {
+			if !contains(has, g) {
+				gones = append(gones, []string{g})
+			}
+		}
+		for _, gone := range gones {
+			for _, bel := range belChoices {
+				for _, entry := range ids {
+					for _, ext := range []string{"none", "forged", "false", "hide"} {
+						for _, route := range []string{"http", "tcp"} {
+							out = append(out, c06case{has: has, gone: gone, bel: bel, entry: entry, ext: ext, route: route})
+						}
 					}
 				}
 			}
@@ -639,6 +732,12 @@ func main() {
 		if s.Bel == nil {
 			s.Bel = []Belief{}
 		}
+		if s.Gone == nil {
+			s.Gone = []string{}
+		}
+		if s.Dereg == nil {
+			s.Dereg = []string{}
+		}
 		if s.Runs == nil {
 			s.Runs = []Run{}
 		}
@@ -667,12 +766,12 @@ func main() {
 			s.Fields = []string{}
 		}
 		if s.Cmd == "" {
-			b, _ := json.Marshal([]interface{}{s.Op, s.Nodes, s.Has, s.Bel, s.Entry, s.Ext, s.Route, s.Mode, s.Target, s.Placed})
+			b, _ := json.Marshal([]interface{}{s.Op, s.Nodes, s.Has, s.Bel, s.Entry, s.Ext, s.Route, s.Mode, s.Target, s.Placed, s.Gone})
 			s.Cmd = string(b)
 		}
 		steps++
 		byOp[s.Op]++
-		distinct[fmt.Sprintf("%s/%d/%s/%v/%s%v%d", s.Op, s.Status, s.ServedBy+s.ServedE, s.Runs, s.Ev, s.Reg, s.Sess)] = true
+		distinct[fmt.Sprintf("%s/%d/%s/%v/%s%v%d%v", s.Op, s.Status, s.ServedBy+s.ServedE, s.Runs, s.Ev, s.Reg, s.Sess, s.Dereg)] = true
 		_ = enc.Encode(s)
 	}
 	fail := func(err error) {
@@ -704,6 +803,9 @@ func main() {
 				_ = json.Unmarshal(arr[7], &s.Mode)
 				_ = json.Unmarshal(arr[8], &s.Target)
 				_ = json.Unmarshal(arr[9], &s.Placed)
+				if len(arr) > 10 {
+					_ = json.Unmarshal(arr[10], &s.Gone)
+				}
 				c, err := startCluster(len(s.Nodes))
 				if err != nil {
 					fail(err)
@@ -714,7 +816,7 @@ func main() {
 					for _, x := range s.Bel {
 						bel[x.N] = x.B
 					}
-					if err := runC06(c, []c06case{{has: s.Has, bel: bel, entry: s.Entry, ext: s.Ext, route: s.Route}}, emit); err != nil {
+					if err := runC06(c, []c06case{{has: s.Has, gone: s.Gone, bel: bel, entry: s.Entry, ext: s.Ext, route: s.Route}}, emit); err != nil {
 						fail(err)
 					}
 				case "Place":
